@@ -65,6 +65,7 @@ def compile_layout(lay, root, out, style, order, cwd_mode, cpp=False):
     outs = ['--python_out', out] + (['--cpp_out', out, '--cpp_full_out', out] if cpp else [])
     old_cwd = os.getcwd()
     counters = []
+    models = {}
     try:
         if cwd_mode == 'elsewhere':
             other = os.path.join(root, 'cwd_elsewhere')
@@ -82,11 +83,26 @@ def compile_layout(lay, root, out, style, order, cwd_mode, cpp=False):
         runs = [ordered] if style == 'together' else [[p] for p in ordered]
         for files in runs:
             with Counter() as c:
-                pyh.run_prophyc(inc + outs + [conv(p) for p in files])
+                res = pyh.run_prophyc(inc + outs + [conv(p) for p in files])
             counters.append(c.calls)
+            for p in files:
+                stem = os.path.splitext(os.path.basename(p))[0]
+                models[stem] = model_facts(res.get(stem, []))
     finally:
         os.chdir(old_cwd)
-    return counters
+    return counters, models
+
+
+def model_facts(nodes):
+    """{composite name: wire facts prophyc computed for it} - taken right after the run that generated the file's
+    outputs (later runs may re-evaluate shared nodes)"""
+    out = {}
+    for n in nodes:
+        if hasattr(n, 'members') and hasattr(n, 'byte_size') and hasattr(n, 'alignment'):
+            out[n.name] = (n.byte_size, n.alignment, getattr(n, 'kind', None),
+                           [(m.name, getattr(m, 'numeric_size', None), m.byte_size, m.alignment,
+                             getattr(m, 'padding', None)) for m in n.members])
+    return out
 
 
 def check_layout(lay, style, order, cwd_mode, vals, stats=None, cpp=False):
@@ -96,7 +112,7 @@ def check_layout(lay, style, order, cwd_mode, vals, stats=None, cpp=False):
     try:
         out = os.path.join(root, 'pvout_%s' % os.path.basename(root))
         try:
-            counters = compile_layout(lay, root, out, style, order, cwd_mode, cpp)
+            counters, models = compile_layout(lay, root, out, style, order, cwd_mode, cpp)
         except pyh.CompileFailed as ex:
             return ("prophyc refused a valid multi-file schema: %s" % str(ex)[:400], det)
         except Exception as ex:
@@ -132,6 +148,13 @@ def check_layout(lay, style, order, cwd_mode, vals, stats=None, cpp=False):
                 sb = (b._SIZE, b._ALIGNMENT, b._DYNAMIC, b._UNLIMITED)
                 if sa != sb:
                     return ("layout of %s differs: multi-file %r, single-file %r" % (d.name, sa, sb), det)
+        # the layout prophyc computed (and hands to the C++ back-ends) is the single-file one
+        single_facts = model_facts(single.nodes)
+        for d in schema.composites():
+            got = models.get(lay.stem(lay.assignment[d.name]), {}).get(d.name)
+            if got != single_facts.get(d.name):
+                return ("computed layout (size, alignment, stiffness, members' sizes / paddings) of %s differs: multi-file "
+                        "%r, single-file %r" % (d.name, got, single_facts.get(d.name)), det)
         merged = {}
         for m in mods.values():
             merged.update(m)
@@ -251,7 +274,7 @@ def make_body(cpp):
 
 def gen_opts():
     return gen.GenOpts(min_decls=6, max_decls=12, const_exprs=True, const_ref_bias=2, big_sizes=False, allow_unset=False,
-                       aligned_greedy=False, avoid=common.avoid_set(ID))
+                       aligned_greedy=False, avoid=common.avoid_set(ID), intlike_bias=2)
 
 
 def worker(widx, seed, tier, stats):
@@ -264,9 +287,48 @@ def worker(widx, seed, tier, stats):
                          shrink=False)
 
 
+def regress(stats):
+    """Saved multi-file inputs of defects found earlier: {files: {relative path: text}, inputs: [...], include_dirs:
+    [...], single: concatenated text}; both builds must succeed and agree on every class's size facts."""
+    import glob
+    import json
+    for path in sorted(glob.glob(os.path.join(runner.VERIF, 'regress', ID, '*.json'))):
+        d = json.load(open(path))['case']['details']
+        root = pyh.fresh_dir('c16r')
+        try:
+            for fn, text in list(d['files'].items()) + [('single_all.prophy', d['single'])]:
+                os.makedirs(os.path.dirname(os.path.join(root, fn)), exist_ok=True)
+                with open(os.path.join(root, fn), 'w') as f:
+                    f.write(text)
+            out = os.path.join(root, 'pvout_r')
+            os.makedirs(out)
+            inc = []
+            for x in d.get('include_dirs', []):
+                inc += ['-I', os.path.join(root, x)]
+            stats.notes['regress_cases'] += 1
+            try:
+                pyh.run_prophyc(inc + ['--python_out', out] + [os.path.join(root, x) for x in d['inputs']])
+                pyh.run_prophyc(['--python_out', out, os.path.join(root, 'single_all.prophy')])
+                mods = multifile.import_package(out)
+            except Exception as ex:
+                stats.violations.append({'what': 'regression input %s: %s: %s' % (
+                    os.path.basename(path), type(ex).__name__, str(ex)[:300]), 'case': {'details': d}})
+                continue
+            single = mods.pop('single_all')
+            for m in mods.values():
+                for k, v in m.items():
+                    if hasattr(v, '_SIZE') and k in single and getattr(v, '__module__', '').endswith(tuple(mods)):
+                        if (v._SIZE, v._ALIGNMENT) != (single[k]._SIZE, single[k]._ALIGNMENT):
+                            stats.violations.append({'what': 'regression input %s: layout of %s differs' % (
+                                os.path.basename(path), k), 'case': {'details': d}})
+        finally:
+            shutil.rmtree(root, ignore_errors=True)
+
+
 def run(tier, seed):
     t0 = time.time()
     stats = runner.run_workers(__name__, 'worker', seed, tier)
+    regress(stats)
     return runner.finish(ID, tier, seed, LEVEL, RULE, stats, t0, ASSUME)
 
 
